@@ -26,6 +26,8 @@ var c11atoms = []string{
 	// a one-valued part that the regex parser does not fuse with its neighbour, between other parts; classes of
 	// several ranges
 	"(b)[ab]", "b{2}[ab]", "[ac]", "[0-2a-b]",
+	// the open-ended brace form of a repetition, and small negated classes that contain the newline
+	"a{2,}", "[ab]{1,}", `[^\S]`, `[^\x00-\x08\x0b-\x{10FFFF}]`,
 }
 
 // contexts wrap a body; %s is the body
